@@ -3,6 +3,13 @@ import Driver.C08
 import Driver.C07
 import Driver.Wire
 import Driver.C13
+import Driver.C19
+import Driver.C17
+import Driver.C14
+import Driver.C12
+import Driver.C11
+import Driver.C10
+import Driver.C09
 
 def dispatch (line : String) : String :=
   let toks := (line.trimAscii.toString.splitOn " ").filter (· ≠ "")
@@ -14,6 +21,13 @@ def dispatch (line : String) : String :=
     else if op.startsWith "c07." then Driver.C07.handle toks
     else if op.startsWith "w." then Driver.Wire.handle toks
     else if op.startsWith "c13." then Driver.C13.handle toks
+    else if op.startsWith "c09." then Driver.C09.handle toks
+    else if op.startsWith "c10." then Driver.C10.handle toks
+    else if op.startsWith "c11." then Driver.C11.handle toks
+    else if op.startsWith "c12." then Driver.C12.handle toks
+    else if op.startsWith "c14." then Driver.C14.handle toks
+    else if op.startsWith "c17." then Driver.C17.handle toks
+    else if op.startsWith "c19." then Driver.C19.handle toks
     else "bad-op"
 
 partial def loop (h : IO.FS.Stream) (out : IO.FS.Stream) : IO Unit := do
